@@ -117,3 +117,43 @@ Print Assumptions C10_fiber_ptr_strict_refuted.
 Print Assumptions C10_gc_config_irrelevant.
 Print Assumptions C10_gc_config_relevant_today_refuted.
 Print Assumptions C10_dispatch_assumed_ok.
+
+(* ======================================================================================================== *)
+(* R2G block (added; see notes/R2G.md): the `cfg!(..) && cond` guards of Stack::{peek,peek_mut,push,pop} and the
+   clamp of Stack::truncate, TRANSLATED from the current stack.rs into gen/PureStack.v by
+   translator/rust2gallina.py on every run (the cfg! as a boolean parameter, Stack::len as the abstract value
+   `self_len`), equal the guards of the hand-written model StackModel.  A change of one of these conditions changes
+   the generated text and breaks the NAMED statement. *)
+From YVGen Require PureStack.
+From YV Require R2G R2GProofs PureEquivStack.
+Theorem C10_gen_stack_peek_guard_eq_model : forall (T : Type) chk depth (s : StackModel.stack T),
+  PureStack.Stack_peek_guard chk (PureEquivStack.zlen T s) (Z.of_nat depth) = chk && (len_u T s <=? depth)%nat.
+Proof. exact PureEquivStack.gen_stack_peek_guard_eq_model. Qed.
+Theorem C10_gen_stack_peek_mut_guard_eq_model : forall (T : Type) chk depth (s : StackModel.stack T),
+  PureStack.Stack_peek_mut_guard chk (PureEquivStack.zlen T s) (Z.of_nat depth) = chk && (len_u T s <=? depth)%nat.
+Proof. exact PureEquivStack.gen_stack_peek_mut_guard_eq_model. Qed.
+Theorem C10_gen_stack_push_guard_eq_model : forall (T : Type) (CAP : nat) chk (s : StackModel.stack T),
+  PureStack.Stack_push_guard chk (Z.of_nat CAP) (PureEquivStack.zlen T s) = chk && (len_u T s =? CAP)%nat.
+Proof. exact PureEquivStack.gen_stack_push_guard_eq_model. Qed.
+Theorem C10_gen_stack_pop_guard_eq_model : forall (T : Type) chk (s : StackModel.stack T),
+  PureStack.Stack_pop_guard chk (PureEquivStack.zlen T s) = chk && (len_u T s =? 0)%nat.
+Proof. exact PureEquivStack.gen_stack_pop_guard_eq_model. Qed.
+Theorem C10_gen_stack_truncate_size_eq_model : forall (T : Type) chk size (s : StackModel.stack T),
+  PureStack.Stack_truncate_size chk (PureEquivStack.zlen T s) (Z.of_nat size) =
+  Z.of_nat (if chk && (len_u T s <? size)%nat then len_u T s else size).
+Proof. exact PureEquivStack.gen_stack_truncate_size_eq_model. Qed.
+(* every guard is under the same build condition *)
+Theorem C10_gen_stack_guard_cfgs :
+  PureStack.Stack_peek_guard_cfgs = PureEquivStack.safe_stack_cfg /\
+  PureStack.Stack_peek_mut_guard_cfgs = PureEquivStack.safe_stack_cfg /\
+  PureStack.Stack_push_guard_cfgs = PureEquivStack.safe_stack_cfg /\
+  PureStack.Stack_pop_guard_cfgs = PureEquivStack.safe_stack_cfg /\
+  PureStack.Stack_truncate_size_cfgs = PureEquivStack.safe_stack_cfg.
+Proof. exact PureEquivStack.gen_stack_guard_cfgs. Qed.
+Print Assumptions C10_gen_stack_peek_guard_eq_model.
+Print Assumptions C10_gen_stack_peek_mut_guard_eq_model.
+Print Assumptions C10_gen_stack_push_guard_eq_model.
+Print Assumptions C10_gen_stack_pop_guard_eq_model.
+Print Assumptions C10_gen_stack_truncate_size_eq_model.
+Print Assumptions C10_gen_stack_guard_cfgs.
+(* ================================================ end of the R2G block ================================= *)
